@@ -6,8 +6,8 @@ PROPS = "Props_C18"
 
 
 def run(res):
-    vlib.proof_step(res, PROPS, ["theories/ConnCases.vo"])
-    connrun.run_conn(res, ["close", "fault"])
+    vlib.proof_step(res, PROPS, ["theories/ConnCases.vo", "theories/StreamCases.vo"])
+    connrun.run_conn(res, ["close", "fault"], with_streams=True)
 
 
 def replay(res, path):
